@@ -15,6 +15,7 @@ from .common import add_failure, bump, new_outcome, rat, unrat
 
 REL_LNL = 1e-8
 MAX_BIN_PATHS = 4096
+HMM_DEADLINE = 30
 
 
 def _slim(spec):
@@ -256,15 +257,17 @@ def check_hmm(ctx, spec, rng, out, kind):
     import numpy
 
     try:
-        lf = _build_hmm(spec, rng)
-        got = float(lf.lnL)
-        bprobs = [float(x) for x in lf.get_param_value("bprobs")]
-        switch = float(lf.get_param_value("bin_switch"))
-        ex = U.extract(lf, spec, profiles="oracle") if kind == "spec" else None
-        root = lf.get_param_value("root")
-        index = [int(i) for i in root.index]
-        real_lhs = [[float(x) for x in lf.get_param_value("lh", bin=b)] for b in lf.bin_names]
-        bdist = lf.get_param_value("bdist")
+        # (the loop of log_dot_reduce does not terminate when a site has likelihood 0 in every class: bounded here)
+        with U.deadline(HMM_DEADLINE):
+            lf = _build_hmm(spec, rng)
+            got = float(lf.lnL)
+            bprobs = [float(x) for x in lf.get_param_value("bprobs")]
+            switch = float(lf.get_param_value("bin_switch"))
+            ex = U.extract(lf, spec, profiles="oracle") if kind == "spec" else None
+            root = lf.get_param_value("root")
+            index = [int(i) for i in root.index]
+            real_lhs = [[float(x) for x in lf.get_param_value("lh", bin=b)] for b in lf.bin_names]
+            bdist = lf.get_param_value("bdist")
     except Exception as e:
         add_failure(out, "spec", "site-class HMM likelihood function construction / evaluation raised", dict(_slim(spec), check="hmm"),
                     "a likelihood", f"{type(e).__name__}: {e}", sig=f"hmm-raised:{type(e).__name__}")
@@ -341,11 +344,12 @@ def hmm_independent_limit(ctx, spec, rng, out):
     (sites_independent=True) mixture with the same parameters - no model, no oracle: two real likelihood functions"""
     try:
         spec = dict(spec, rules=[r for r in spec["rules"] if r["par_name"] != "bin_switch"] + [dict(par_name="bin_switch", init=1.0)])
-        lf = U.build_lf(spec, None)
-        got = float(lf.lnL)
-        bprobs = [float(x) for x in lf.get_param_value("bprobs")]
-        spec2 = dict(spec, hmm=False, rules=[r for r in spec["rules"] if r["par_name"] != "bin_switch"])
-        want = float(U.build_lf(spec2, None).lnL)
+        with U.deadline(HMM_DEADLINE):
+            lf = U.build_lf(spec, None)
+            got = float(lf.lnL)
+            bprobs = [float(x) for x in lf.get_param_value("bprobs")]
+            spec2 = dict(spec, hmm=False, rules=[r for r in spec["rules"] if r["par_name"] != "bin_switch"])
+            want = float(U.build_lf(spec2, None).lnL)
     except Exception as e:
         add_failure(out, "spec", "site-class HMM likelihood function construction / evaluation raised", dict(_slim(spec), check="hmm-indep"),
                     "a likelihood", f"{type(e).__name__}: {e}", sig=f"hmm-raised:{type(e).__name__}")
